@@ -37,12 +37,16 @@ Definition wanted (now : Z) (ssid : list N) (t0 t1 : Z) (e : entry) : bool :=
      end
   && (t0 <=? msg_time (e_msg e))%Z && (msg_time (e_msg e) <=? t1)%Z.
 
-(* newest first = key order; keep while the reply-size cap holds; at most limit *)
+(* newest first = key order; keep while the reply-size cap holds; at most limit.  A message that by
+   itself is larger than the cap can be part of no answer: it is left out and does not hide the older
+   ones (before the repair of F26 it ended every page at its position, so that nothing older than it
+   could ever be queried) *)
 Fixpoint cap_prefix (l : list msg) (size : N) : list msg :=
   match l with
   | [] => []
-  | m :: r => let s := size + len (m_payload m) + len (m_id m) + len (m_chan m) in
-              if maxMessageSize <? s then [] else m :: cap_prefix r s
+  | m :: r => let own := len (m_payload m) + len (m_id m) + len (m_chan m) in
+              if maxMessageSize <? own then cap_prefix r size
+              else if maxMessageSize <? size + own then [] else m :: cap_prefix r (size + own)
   end.
 Definition spec_query (s : store) (now : Z) (ssid : list N) (from until : Z) (start : bytes) (limit : N) : list msg :=
   let '(t0, t1) := window from until in
